@@ -29,6 +29,7 @@ mod c14;
 mod dce;
 mod gocomp;
 mod namecat;
+mod nametest;
 mod gopp;
 mod probe;
 mod rng;
@@ -68,7 +69,7 @@ fn main() {
         "c14" => c14::main(&args),
         "dce" => dce::main(&args),
         "gocomp" => gocomp::main(&args),
-        "c02names" => namecat::main(&args),
+        "c02names" => nametest::main(&args),
         "unify" => unify::main(&args),
         "solve" => solve::main(&args),
         "gopp" => gopp::main(&args),
